@@ -20,6 +20,7 @@ pub mod c20;
 pub fn run(ctx: &mut Ctx, suite: &str) {
     match suite {
         "c01" => c01::run(ctx),
+        "c01s" => c01::run_pipelines(ctx),
         "c02" => c02::run(ctx),
         "c14r" => c02::run_c14r(ctx),
         "c03" => c03::run(ctx),
